@@ -1,0 +1,18 @@
+//go:build verif
+
+package godi
+
+import "weak"
+
+// VerifWeakScope returns a function reporting whether the concrete scope
+// object behind s is still reachable (weak handle; does not keep it alive).
+// Only compiled with the "verif" build tag; used by the external verification
+// harness to observe that closed scopes are released.
+func VerifWeakScope(s Scope) func() bool {
+	sc, ok := s.(*scope)
+	if !ok || sc == nil {
+		return func() bool { return false }
+	}
+	w := weak.Make(sc)
+	return func() bool { return w.Value() != nil }
+}
